@@ -30,7 +30,13 @@ def run(ctx):
             if rng.random() < 0.3:
                 c.plan.append(f'stall copy_file_range {rng.choice([200, 1000])}')
             c.tag = 'gen'
+            xfault = rng.random() < 0.35
+            if xfault:      # a tolerated failure (extended attributes) on one file: the requested fsync must still be issued
+                victim = rng.choice(c.files)[0]
+                c.plan.append(rng.choice([f'fail flistxattr S/{victim} 1 {scen.ERRNO["EPERM"]}', f'fail fsetxattr D/{victim} 1 {scen.ERRNO["ENOSPC"]}', f'fail fgetxattr S/{victim} 1 {scen.ERRNO["EIO"]}']))
             pairs = br.setup_case(root, c)
+            for src, _, _ in pairs:
+                os.setxattr(src, 'user.c18', b'v')
             r = scen.run_xcp(root, br.argv_of(c), plan=c.plan, timeout=90)
             fs = '--fsync' in c.extra
             ctx.count(f'driver.{c.driver}'); ctx.count(f'workers.{c.workers}'); ctx.count(f'sched.{mode}'); ctx.count('fsync.on' if fs else 'fsync.off'); ctx.count(f'exit.{r.cls}')
